@@ -642,6 +642,20 @@ def rule_p2(idx: ProgramIndex, rep: Report, records: Dict[str, CtorRecord]):
                             target.add(n.targets[0].id)
                             changed = True
                 for n in walk_body(fn):
+                    if isinstance(n, ast.Call) and isinstance(n.func, ast.Attribute) and isinstance(n.func.value, ast.Name) \
+                            and n.func.value.id == "self" and n.func.attr.startswith("_"):
+                        # self._rebuild(..., dtype): a private helper that forwards that parameter to a constructor's dtype=
+                        h = idx.resolve_method(c, n.func.attr)
+                        if h is not None:
+                            hp = h.params()[1:]
+                            fwd = {p_ for p_ in hp for c2 in walk_body(h) if isinstance(c2, ast.Call) for k2 in c2.keywords
+                                   if k2.arg == "dtype" and isinstance(k2.value, ast.Name) and k2.value.id == p_}
+                            for i_, a_ in enumerate(n.args):
+                                if i_ < len(hp) and hp[i_] in fwd and any(isinstance(x, ast.Name) and x.id in target for x in ast.walk(a_)):
+                                    ok = True
+                            for k_ in n.keywords:
+                                if k_.arg in fwd and any(isinstance(x, ast.Name) and x.id in target for x in ast.walk(k_.value)):
+                                    ok = True
                     if isinstance(n, ast.Call):
                         for k in n.keywords:
                             if k.arg == "dtype":
@@ -674,7 +688,7 @@ def rule_p2(idx: ProgramIndex, rep: Report, records: Dict[str, CtorRecord]):
 
 # ------------------------------------------------------------------------------------------------ G
 def rule_g(idx: ProgramIndex, rep: Report):
-    rep.rule("C14.G", "requires_grad_ on recorded arguments only behind a floating dtype test", floor=2)
+    rep.rule("C14.G", "requires_grad_ on recorded arguments only behind a floating dtype test", floor=1)
     for c in idx.operator_classes():
         fn = c.methods.get("_set_requires_grad")
         if fn is None:
